@@ -6,7 +6,21 @@ Oracle: (a) values read back equal, in order; (b) so_far + remainder == whole me
 every point; (c) bytes produced == the independent RFC 4251 encoder in vlib.refssh
 (mpint minimal two's complement, zero = empty string); (d) deflate_long/inflate_long
 round trip, and inflate_long(ref mpint body) == n.
+
+History dimension (round 3): the functions under test are module-level helpers shared by the whole process,
+so a case is a HISTORY of calls, not one call: (e) side operations on the case's own integers (the value, its
+magnitude, its negation) - util.deflate_long in BOTH documented modes (add_sign_padding True/False),
+util.inflate_long in both modes, add_mpint/add_adaptive_int on a second Message object - are interleaved at
+generated positions before / between the writes and between the reads, each with its own oracle (same clauses);
+(f) fields repeat the value of an earlier integer field, as mpint or adaptive int ("dup"); (g) a quarter of the
+cases builds and reads the whole message a second time in the same process and demands identical bytes/values
+("again"). State carried from earlier EXAMPLES of the same process is part of the history too: when such state
+makes hypothesis' shrinker see a case fail once and pass later (hypothesis.errors.Flaky), run() does not let that
+surface as a harness error: the violating cases observed are re-executed, smallest first, in a fresh process
+(then in this process) and the first one that reproduces is reported; if none does, the first observed one is.
 """
+import collections
+
 from hypothesis import strategies as st
 
 from vlib import refssh as R
@@ -18,7 +32,12 @@ RULE = (
     "name-list of arbitrary comma-free names incl. non-ASCII code points of UTF-8 width 2/3/4 (byte length != "
     "code-point length), mpint dense at 0, +-1, +-2^(8k)-1, +-2^(8k), +-2^(8k-1) up to 4096 bits) with interleaved "
     "so_far/remainder/rewind probes; non-trivial = >=2 fields and at least one mpint or adaptive int >= 0xFF000000 "
-    "or a field whose value sits on a sign/byte boundary or a name-list with a non-ASCII name; distinct by SHA-1 of the field list"
+    "or a field whose value sits on a sign/byte boundary or a name-list with a non-ASCII name; distinct by SHA-1 of the case. "
+    "Each case is a call HISTORY within one process: generated side operations on the case's own integers (v, |v|, -v) - "
+    "deflate_long with and without sign padding, inflate_long signed/always_positive, add_mpint/add_adaptive_int on a second "
+    "Message - interleaved before/between the writes and between the reads (classes hist:*), fields repeating an earlier "
+    "integer as mpint/adaptive int (dup:*), and a second build+read of the same message (again); violations that depend on "
+    "state carried over from earlier examples (hypothesis Flaky) are re-confirmed in a fresh process and reported, not a harness error"
 )
 
 
@@ -62,7 +81,38 @@ field = st.one_of(
     st.tuples(st.just("mpint"), mpints),
 )
 
-case_st = st.tuples(st.lists(field, min_size=1, max_size=30), st.lists(st.integers(0, 3), max_size=30))
+_INT_KINDS = ("mpint", "aint", "u32", "u64")
+HIST_OPS = ("deflate", "deflate-nopad", "inflate", "inflate-pos", "msg-mpint", "msg-aint")
+
+# a field that repeats the value of an earlier integer field (resolved in _resolve): ("dup", which-earlier, as-kind)
+dup_field = st.tuples(st.just("dup"), st.integers(0, 7), st.sampled_from(["mpint", "aint"]))
+# side operation: (position in the write/read sequence, op, which integer of the case, variant 0: v, 1: |v|, 2: -v)
+hist_op = st.tuples(st.integers(0, 63), st.sampled_from(HIST_OPS), st.integers(0, 7), st.integers(0, 2))
+
+case_st = st.tuples(
+    st.lists(st.one_of(field, field.map(lambda v: v), field.map(lambda v: v), dup_field), min_size=1, max_size=30),
+    st.lists(st.integers(0, 3), max_size=30),
+    st.lists(hist_op, max_size=6),
+    st.integers(0, 3).map(lambda v: v == 0),
+)
+
+
+def _resolve(raw_fields):
+    """Replace ("dup", i, kind) by a field of that kind carrying the value of an earlier integer field
+    (dropped when there is none / the value does not fit the kind)."""
+    out = []
+    for f in raw_fields:
+        if f[0] != "dup":
+            out.append((f[0], f[1]))
+            continue
+        ints = [v for k, v in out if k in _INT_KINDS]
+        if not ints:
+            continue
+        v = ints[f[1] % len(ints)]
+        if f[2] == "aint" and v < 0:
+            continue
+        out.append((f[2], v))
+    return out
 
 
 def _ref_encode(kind, v):
@@ -100,114 +150,247 @@ def _on_boundary(n):
     return bl % 8 in (0, 1) or (a & (a - 1)) == 0 or ((a + 1) & a) == 0
 
 
-def execute(ctx, case):
+def _sign(n):
+    return "zero" if n == 0 else ("negative" if n < 0 else "positive")
+
+
+def _magnitude_bytes(a):
+    return a.to_bytes((a.bit_length() + 7) // 8, "big") if a else b""
+
+
+class _Stop(Exception):
+    """a (known, non-raising) violation ended this case"""
+
+
+_SEEN = []  # unlisted violations observed by this process: (clause, bucket, case, detail)
+_RING = collections.deque(maxlen=1000)  # the cases this process executed most recently
+_FIRST_PRELUDE = []  # the cases executed before the first entry of _SEEN
+
+
+_WRAP = []  # replay of a case with a prelude: the cases executed before the one running now
+
+
+def _viol(ctx, clause, bucket, jcase, detail):
+    if _WRAP and _WRAP[0]:
+        jcase = dict(jcase, prelude=list(_WRAP[0]))
+    if not _SEEN:
+        del _FIRST_PRELUDE[:]
+        _FIRST_PRELUDE.extend(list(_RING)[:-1])  # the last one is this case itself
+    _SEEN.append((clause, bucket, jcase, detail))  # stays there when ctx.violation raises (unlisted, shrinking mode)
+    if ctx.violation(clause, bucket, jcase, detail):
+        _SEEN.pop()  # listed open finding
+    raise _Stop()
+
+
+def _side_op(ctx, jcase, op, n):
+    """One side operation of the history on integer n, with its own oracle."""
     from paramiko.message import Message
     from paramiko import util
+    from vlib.core import UnknownViolation
 
-    fields, probes = case
-    fields = [(k, v) for k, v in fields]
+    try:
+        if op == "deflate":
+            d = util.deflate_long(n)
+            if n != 0 and d != R.mpint_body(n):
+                _viol(ctx, "encoding-differs-from-rfc4251", "deflate_long:" + _sign(n), jcase, "deflate_long(%r) = %s, RFC 4251 minimal form %s" % (n, d.hex()[:80], R.mpint_body(n).hex()[:80]))
+            back = util.inflate_long(d)
+            if back != n:
+                _viol(ctx, "deflate-inflate", "signed", jcase, "%r -> %s -> %r" % (n, d.hex()[:60], back))
+        elif op == "deflate-nopad":
+            a = abs(n)
+            d = util.deflate_long(a, add_sign_padding=False)
+            back = util.inflate_long(d, always_positive=True)
+            if back != a:
+                _viol(ctx, "deflate-inflate", "unsigned", jcase, "%r -> %s -> %r" % (a, d.hex()[:60], back))
+        elif op == "inflate":
+            back = util.inflate_long(R.mpint_body(n))
+            if back != n:
+                _viol(ctx, "inflate-of-rfc-mpint", "neg" if n < 0 else "nonneg", jcase, "%r -> %r" % (n, back))
+        elif op == "inflate-pos":
+            a = abs(n)
+            back = util.inflate_long(_magnitude_bytes(a), always_positive=True)
+            if back != a:
+                _viol(ctx, "inflate-of-magnitude", "always-positive", jcase, "%r -> %r" % (a, back))
+        elif op == "msg-mpint":
+            m = Message()
+            m.add_mpint(n)
+            got = m.asbytes()
+            if got != R.mpint(n):
+                _viol(ctx, "encoding-differs-from-rfc4251", "mpint:" + _sign(n), jcase, "second Message: mpint %r paramiko=%s ref=%s" % (n, got.hex()[:80], R.mpint(n).hex()[:80]))
+            back = Message(got).get_mpint()
+            if back != n:
+                _viol(ctx, "roundtrip", "mpint", jcase, "second Message: wrote %r read %r" % (n, back))
+        elif op == "msg-aint":
+            a = abs(n)
+            m = Message()
+            m.add_adaptive_int(a)
+            got = m.asbytes()
+            if a < 0xFF000000 and got != R.u32(a):
+                _viol(ctx, "encoding-differs-from-rfc4251", "aint", jcase, "second Message: aint %r paramiko=%s" % (a, got.hex()[:80]))
+            back = Message(got).get_adaptive_int()
+            if back != a:
+                _viol(ctx, "roundtrip", "aint", jcase, "second Message: wrote %r read %r" % (a, back))
+        else:
+            raise AssertionError(op)
+    except (_Stop, UnknownViolation, AssertionError):
+        raise
+    except Exception as e:
+        _viol(ctx, "util-raises", "%s:%s" % (op, type(e).__name__), jcase, repr(e))
+
+
+def _write(ctx, jcase, m, k, v):
+    try:
+        if k == "byte":
+            m.add_byte(v)
+        elif k == "bool":
+            m.add_boolean(v)
+        elif k == "u32":
+            m.add_int(v)
+        elif k == "u64":
+            m.add_int64(v)
+        elif k == "aint":
+            m.add_adaptive_int(v)
+        elif k == "string":
+            m.add_string(v)
+        elif k == "text":
+            m.add_string(v)
+        elif k == "list":
+            m.add_list(v)
+        elif k == "mpint":
+            m.add_mpint(v)
+    except Exception as e:
+        _viol(ctx, "encode-raises", "%s:%s" % (k, type(e).__name__), jcase, repr(e))
+
+
+def _read(ctx, jcase, r, k, p):
+    try:
+        if k == "byte":
+            return r.get_byte()
+        elif k == "bool":
+            return r.get_boolean()
+        elif k == "u32":
+            return r.get_int()
+        elif k == "u64":
+            return r.get_int64()
+        elif k == "aint":
+            return r.get_adaptive_int()
+        elif k == "string":
+            return r.get_string() if p < 2 else r.get_binary()
+        elif k == "text":
+            return r.get_text()
+        elif k == "list":
+            return r.get_list()
+        elif k == "mpint":
+            return r.get_mpint()
+    except Exception as e:
+        _viol(ctx, "decode-raises", "%s:%s" % (k, type(e).__name__), jcase, repr(e))
+
+
+def execute(ctx, case):
+    if len(case) == 2:  # layout of the first rounds: (fields, probes)
+        case = (case[0], case[1], [], False)
+    fields, probes, hist, again = case
+    fields = _resolve(fields)
+    if not fields:
+        return
+    ints = [v for k, v in fields if k in _INT_KINDS]
+    nf = len(fields)
+    # resolve the side operations: position p in 0..2*nf+1 (0..nf: before write p / after the last write;
+    # nf+1..2*nf+1: before read p-nf-1 / after the last read), integer = variant of one of the case's integers
+    plan = {}
+    hist_res = []
+    if ints:
+        for pos, op, ref, variant in hist:
+            v = ints[ref % len(ints)]
+            n = (v, abs(v), -v)[variant]
+            pos = pos % (2 * nf + 2)
+            plan.setdefault(pos, []).append((op, n))
+            hist_res.append((pos, op, n))
     nontrivial = len(fields) >= 2 and any(
         (k == "mpint") or (k == "aint" and v >= 0xFF000000) or (k in ("u32", "u64") and _on_boundary(v))
         or (k == "list" and any(ord(ch) > 127 for n in v for ch in n))
         for k, v in fields
     )
-    classes = sorted(set(k for k, _ in fields))
+    classes = set(k for k, _ in fields)
     for k, v in fields:
         if k == "list" and any(ord(ch) > 127 for n in v for ch in n):
-            classes.append("list:non-ascii-name")
+            classes.add("list:non-ascii-name")
             widths = set(len(ch.encode("utf-8")) for n in v for ch in n)
-            classes.extend("list:utf8-width-%d" % w for w in sorted(widths) if w > 1)
+            classes.update("list:utf8-width-%d" % w for w in sorted(widths) if w > 1)
         if k == "text" and any(ord(ch) > 127 for ch in v):
-            classes.append("text:non-ascii")
-    classes = sorted(set(classes))
-    ctx.case({"fields": fields, "probes": probes}, nontrivial, classes)
-    jcase = {"fields": fields, "probes": probes}
+            classes.add("text:non-ascii")
+    big = [v for k, v in fields if k == "mpint" or (k == "aint" and v >= 0xFF000000)]
+    if len(big) != len(set(big)):
+        classes.add("dup:same-integer-written-twice")
+    written = set(abs(v) for v in big)
+    for pos, op, n in hist_res:
+        classes.add("hist:" + op)
+        classes.add("hist:during-write" if pos <= nf else "hist:during-read")
+        if abs(n) in written:
+            classes.add("hist:on-a-value-also-written-as-mpint/long-aint")
+            if op == "deflate-nopad":
+                classes.add("hist:both-padding-modes-on-one-value")
+    if again:
+        classes.add("again:second-build-and-read")
+    jcase = {"fields": fields, "probes": probes, "hist": [list(h) for h in hist], "again": again}
+    ctx.case(jcase, nontrivial, sorted(classes))
+    _RING.append(jcase)
+    try:
+        whole = _pass(ctx, jcase, fields, probes, plan, None)
+        if again:
+            _pass(ctx, jcase, fields, probes, {}, whole)
+    except _Stop:
+        return
 
+
+def _pass(ctx, jcase, fields, probes, plan, earlier):
+    from paramiko.message import Message
+    from paramiko import util
+
+    nf = len(fields)
     m = Message()
-    expect = b""
-    exact = True
-    for k, v in fields:
+    for idx, (k, v) in enumerate(fields):
+        for op, n in plan.get(idx, ()):
+            _side_op(ctx, jcase, op, n)
         before = len(m.asbytes())
-        try:
-            if k == "byte":
-                m.add_byte(v)
-            elif k == "bool":
-                m.add_boolean(v)
-            elif k == "u32":
-                m.add_int(v)
-            elif k == "u64":
-                m.add_int64(v)
-            elif k == "aint":
-                m.add_adaptive_int(v)
-            elif k == "string":
-                m.add_string(v)
-            elif k == "text":
-                m.add_string(v)
-            elif k == "list":
-                m.add_list(v)
-            elif k == "mpint":
-                m.add_mpint(v)
-        except Exception as e:
-            ctx.violation("encode-raises", "%s:%s" % (k, type(e).__name__), jcase, repr(e))
-            return
+        _write(ctx, jcase, m, k, v)
         got = m.asbytes()[before:]
         ref = _ref_encode(k, v)
-        if ref is None:
-            exact = False
-        elif got != ref:
+        if ref is not None and got != ref:
             bucket = k
             if k == "mpint":
-                bucket = "mpint:zero" if v == 0 else ("mpint:negative" if v < 0 else "mpint:positive")
-            ctx.violation("encoding-differs-from-rfc4251", bucket, jcase, "field %s=%r paramiko=%s ref=%s" % (k, v if k != "string" else "...", got.hex()[:80], ref.hex()[:80]))
-            return
-        expect += got
+                bucket = "mpint:" + _sign(v)
+            _viol(ctx, "encoding-differs-from-rfc4251", bucket, jcase, "field %s=%r paramiko=%s ref=%s" % (k, v if k != "string" else "...", got.hex()[:80], ref.hex()[:80]))
+    for op, n in plan.get(nf, ()):
+        _side_op(ctx, jcase, op, n)
     whole = m.asbytes()
+    if earlier is not None and whole != earlier:
+        _viol(ctx, "rebuild-differs", "same-fields-different-bytes", jcase, "first build %d bytes, second build %d bytes" % (len(earlier), len(whole)))
     r = Message(whole)
     pi = 0
     for idx, (k, v) in enumerate(fields):
+        for op, n in plan.get(nf + 1 + idx, ()):
+            _side_op(ctx, jcase, op, n)
         p = probes[pi] if pi < len(probes) else 0
         pi += 1
         if p in (1, 3):
             sf, rem = r.get_so_far(), r.get_remainder()
             if sf + rem != whole:
-                ctx.violation("so_far+remainder", "at-field-%s" % k, jcase, "so_far=%d remainder=%d whole=%d" % (len(sf), len(rem), len(whole)))
-                return
-        try:
-            if k == "byte":
-                got = r.get_byte()
-            elif k == "bool":
-                got = r.get_boolean()
-            elif k == "u32":
-                got = r.get_int()
-            elif k == "u64":
-                got = r.get_int64()
-            elif k == "aint":
-                got = r.get_adaptive_int()
-            elif k == "string":
-                got = r.get_string() if p < 2 else r.get_binary()
-            elif k == "text":
-                got = r.get_text()
-            elif k == "list":
-                got = r.get_list()
-            elif k == "mpint":
-                got = r.get_mpint()
-        except Exception as e:
-            ctx.violation("decode-raises", "%s:%s" % (k, type(e).__name__), jcase, repr(e))
-            return
+                _viol(ctx, "so_far+remainder", "at-field-%s" % k, jcase, "so_far=%d remainder=%d whole=%d" % (len(sf), len(rem), len(whole)))
+        got = _read(ctx, jcase, r, k, p)
         if got != v or type(got) is not type(v):
-            ctx.violation("roundtrip", k, jcase, "field %d %s wrote %r read %r" % (idx, k, v, got))
-            return
+            _viol(ctx, "roundtrip", k, jcase, "field %d %s wrote %r read %r" % (idx, k, v, got))
+    for op, n in plan.get(2 * nf + 1, ()):
+        _side_op(ctx, jcase, op, n)
     if r.get_remainder() != b"" or r.get_so_far() != whole:
-        ctx.violation("so_far+remainder", "at-end", jcase, "")
-        return
+        _viol(ctx, "so_far+remainder", "at-end", jcase, "")
     # rewind and read the first field again
     r.rewind()
     if r.get_so_far() != b"" or r.get_remainder() != whole:
-        ctx.violation("so_far+remainder", "after-rewind", jcase, "")
-        return
+        _viol(ctx, "so_far+remainder", "after-rewind", jcase, "")
     # util-level round trips for every integer in the case
     for k, v in fields:
-        if k not in ("mpint", "aint", "u32", "u64"):
+        if k not in _INT_KINDS:
             continue
         try:
             d = util.deflate_long(v)
@@ -216,24 +399,162 @@ def execute(ctx, case):
             back2 = util.inflate_long(d2, always_positive=True)
             from_ref = util.inflate_long(R.mpint_body(v))
         except Exception as e:
-            ctx.violation("util-raises", type(e).__name__, jcase, repr(e))
-            return
+            _viol(ctx, "util-raises", type(e).__name__, jcase, repr(e))
         if back != v:
-            ctx.violation("deflate-inflate", "signed", jcase, "%r -> %s -> %r" % (v, d.hex()[:60], back))
-            return
+            _viol(ctx, "deflate-inflate", "signed", jcase, "%r -> %s -> %r" % (v, d.hex()[:60], back))
         if back2 != abs(v):
-            ctx.violation("deflate-inflate", "unsigned", jcase, "%r -> %s -> %r" % (abs(v), d2.hex()[:60], back2))
-            return
+            _viol(ctx, "deflate-inflate", "unsigned", jcase, "%r -> %s -> %r" % (abs(v), d2.hex()[:60], back2))
         if from_ref != v:
-            ctx.violation("inflate-of-rfc-mpint", "neg" if v < 0 else "nonneg", jcase, "%r -> %r" % (v, from_ref))
+            _viol(ctx, "inflate-of-rfc-mpint", "neg" if v < 0 else "nonneg", jcase, "%r -> %r" % (v, from_ref))
+    return whole
+
+
+def _case_tuple(jcase):
+    return ([(k, v) for k, v in jcase["fields"]], jcase["probes"], [tuple(h) for h in jcase.get("hist", [])], bool(jcase.get("again", False)))
+
+
+class _Fail(Exception):
+    """an unlisted violation inside ctx.explore (hypothesis shrinks on it; run() does the reporting)"""
+
+
+def _fresh(ctx, jcase):
+    """Run `check.py C39 --replay` on the case in a new interpreter (same tree under test). Returns None when the
+    child reports nothing, else what it reported first: (clause, bucket, case, detail) - for a case with a prelude
+    that may be one of the prelude cases (with the part of the prelude before it)."""
+    import json
+    import os
+    import re
+    import subprocess
+    import sys
+
+    from vlib import core
+
+    ctx.count("confirm:fresh-process-replays")
+    path = os.path.join(ctx.tmpdir(), "cand-%d.json" % len(os.listdir(ctx.tmpdir())))
+    with open(path, "w") as f:
+        json.dump({"property": PROPERTY, "signature": "candidate", "case": core._enc(jcase), "detail": ""}, f)
+    here = os.path.dirname(os.path.dirname(os.path.abspath(__file__)))
+    got, written = None, []
+    try:
+        p = subprocess.run([sys.executable, os.path.join(here, "check.py"), PROPERTY, "--replay", path], stdout=subprocess.PIPE, stderr=subprocess.STDOUT, timeout=120)
+        written = re.findall(r"^VIOLATION property=%s replay=(\S+)" % PROPERTY, p.stdout.decode("utf-8", "replace"), re.M)
+        if p.returncode == 1 and written:
+            with open(os.path.join(here, written[0])) as f:
+                body = json.load(f)
+            clause, _, bucket = body["signature"].partition("|")
+            got = (clause, bucket, core._dec(body["case"]), body.get("detail", ""))
+    except Exception:
+        got = None
+    finally:
+        # the child wrote its own new-*.json for whatever it reported: only the parent's report is kept
+        for rel in written:
+            if os.path.basename(rel).startswith("new-") and os.path.exists(os.path.join(here, rel)):
+                os.unlink(os.path.join(here, rel))
+    return got
+
+
+def _report(ctx):
+    """An unlisted violation was observed during the exploration. Because the functions under test may carry state
+    from earlier calls of this process (the statement has no 'unless called before' clause, so a verdict that
+    depends on it is a violation, not a harness problem), the case hypothesis ended with need not fail on its own:
+    report a case that reproduces in a FRESH process - hypothesis' final case, else the smallest observed ones,
+    else the first observed one preceded by the cases executed before it ("prelude", reduced by bounded delta
+    debugging); only if nothing reproduces there, a case as it was seen in this process."""
+    import json
+
+    from vlib import core
+
+    def size(j):
+        return len(json.dumps(core._enc(j)))
+
+    cands = [_SEEN[-1]] + sorted(_SEEN[:-1], key=lambda s: size(s[2]))
+    tried = []
+    best = None
+    for clause, bucket, jcase, detail in cands:
+        if jcase in tried:
+            continue
+        if len(tried) >= 6:
+            break
+        tried.append(jcase)
+        best = _fresh(ctx, jcase)
+        if best:
+            break
+    if best is None:
+        ctx.count("carried-state:violation-depends-on-earlier-examples")
+        # the cases executed before the first observed violation, as a prelude: suffixes of several lengths (state such
+        # as a bounded cache depends on where in the history it was last emptied)
+        jcase = _SEEN[0][2]
+        full = list(_FIRST_PRELUDE)
+        for ln in sorted(set(min(len(full), x) for x in (1000, 300, 100, 40, 16, 6, 2, 1)), reverse=True):
+            if ln:
+                best = _fresh(ctx, dict(jcase, prelude=full[-ln:]))
+                if best:
+                    break
+    if best is not None:
+        # bounded delta debugging of the prelude (every step is confirmed in a fresh process)
+        runs, n = 0, 2
+        while best[2].get("prelude") and runs < 14:
+            pre = best[2]["prelude"]
+            chunk = -(-len(pre) // n)
+            for i in range(0, len(pre), chunk):
+                runs += 1
+                got = _fresh(ctx, dict(best[2], prelude=pre[:i] + pre[i + chunk :]))
+                if got:
+                    best, n = got, max(n - 1, 2)
+                    break
+                if runs >= 14:
+                    break
+            else:
+                if chunk == 1:
+                    break
+                n = min(len(pre), n * 2)
+        clause, bucket, jcase, detail = best
+        if not jcase.get("prelude"):
+            jcase = {k: v for k, v in jcase.items() if k != "prelude"}
+        ctx.violation(clause, bucket, jcase, str(detail) + " [confirmed in a fresh process]")
+        return
+    for clause, bucket, jcase, detail in cands[:8]:
+        n0 = len(ctx.unknown)
+        replay(ctx, jcase)
+        if len(ctx.unknown) > n0:
             return
+    clause, bucket, jcase, detail = _SEEN[0]
+    ctx.violation(clause, bucket, jcase, str(detail) + " [observed in this process after earlier examples; depends on state carried across calls, did not reproduce when re-executed alone]")
 
 
 def run(ctx):
+    import hypothesis
+
+    from vlib.core import UnknownViolation
+
     ctx.set_budget(50, 600)
-    ctx.explore(case_st, lambda c: execute(ctx, c), ctx.scale(6000, 60000))
+    del _SEEN[:]
+    del _FIRST_PRELUDE[:]
+    _RING.clear()
+
+    def body(c):
+        try:
+            execute(ctx, c)
+        except UnknownViolation as e:
+            raise _Fail(str(e)) from None
+
+    try:
+        ctx.explore(case_st, body, ctx.scale(5000, 60000))
+    except (_Fail, hypothesis.errors.Flaky):
+        # _Fail: hypothesis' final (minimal) case; Flaky: a case failed once and passed when re-executed
+        if not _SEEN:
+            raise
+        _report(ctx)
 
 
 def replay(ctx, case):
-    fields = [(k, v) for k, v in case["fields"]]
-    execute(ctx, (fields, case["probes"]))
+    """A case may carry "prelude": the cases to execute (with the full oracle) in the same process before it."""
+    prelude = list(case.get("prelude", []))
+    try:
+        for i, pc in enumerate(prelude):
+            _WRAP[:] = [prelude[:i]]
+            execute(ctx, _case_tuple(pc))
+        _WRAP[:] = [prelude]
+        execute(ctx, _case_tuple(case))
+    finally:
+        del _WRAP[:]
